@@ -28,6 +28,18 @@ class Injected(Exception):
     pass
 
 
+class InjectedInterrupt(KeyboardInterrupt):
+    """a failure that is not an Exception subclass: Ctrl-C during a long run"""
+
+
+class InjectedExit(SystemExit):
+    """... or sys.exit() from inside a worker / MPI pool"""
+
+
+INJECTED = (Injected, InjectedInterrupt, InjectedExit)
+EXC_KINDS = {"error": Injected, "interrupt": InjectedInterrupt, "exit": InjectedExit}
+
+
 CALLABLES = [
     # (label, module path, attribute, inside the cache write?)
     ("JokerSamples.write", "thejoker.samples:JokerSamples", "write", True),
@@ -161,7 +173,7 @@ def run_case(env, case):
     problems = []
     label, path, attr, in_write = next(c for c in CALLABLES if c[0] == case["callable"])
     owner = resolve(path, env["pool"])
-    exc = Injected(f"injected into {label} call #{case['k']}")
+    exc = EXC_KINDS[case.get("exc", "error")](f"injected into {label} call #{case['k']}")
     if case["input"] == "obj":
         ps = env["lib"]
     elif case["input"] == "str":
@@ -177,7 +189,7 @@ def run_case(env, case):
             obs = "ObsReturned"
             if res is None:
                 problems.append("call returned None")
-        except Injected as e:
+        except INJECTED as e:
             obs = "ObsRaisedInjected"
             if e is not exc:
                 problems.append("a different Injected instance reached the caller")
@@ -285,6 +297,9 @@ def gen_cases(ctx):
             for k in range(1, kmax + 1):
                 for inp in ("obj", "str"):
                     cases.append(dict(entry=entry, callable=label, k=k, input=inp))
+                # the same fault as an interrupt / interpreter exit (not Exception subclasses): cleanup must not depend on the class
+                if k == 1:
+                    cases.append(dict(entry=entry, callable=label, k=k, input="obj", exc="interrupt" if len(cases) % 2 else "exit"))
         cases.append(dict(entry=entry, callable="read_batch", k=99, input="obj"))  # no fault fires
         if entry != "rejection_sample":
             cases.append(dict(entry=entry, callable="read_batch", k=99, input="bad"))
